@@ -1,0 +1,44 @@
+//go:build verif
+
+package ocsp
+
+// Machine-checked contracts for package revocation/ocsp (checked by /verif/govc; comment-only file).
+// Properties C06, C11, C12, C17 (standalone OCSP entry point).
+
+//@ import "crypto/x509"
+//@ import "time"
+//@ import "github.com/notaryproject/notation-core-go/revocation/result"
+//@ import "github.com/notaryproject/notation-core-go/revocation/internal/x509util"
+//@ import iocsp "github.com/notaryproject/notation-core-go/revocation/internal/ocsp"
+//@ import corex509 "github.com/notaryproject/notation-core-go/x509"
+
+//@ spec func Verdict(r result.Result) bool { r == result.ResultOK || r == result.ResultUnknown || r == result.ResultRevoked }
+// stmt C11: "The standalone OCSP entry point never consults CRLs" (frame: no crl.Fetcher.Fetch in the calls clause);
+// stmt C04/C12 per non-root certificate
+//@ stmt spec func OCSPSlotOK(c *x509.Certificate, iss *x509.Certificate, res *result.CertRevocationResult, t time.Time) bool {
+//@     res != nil && res.RevocationMethod == result.RevocationMethodOCSP &&
+//@     (iocsp.Supported$(c) ==> Verdict(res.Result) &&
+//@         (res.Result == result.ResultOK ==> (exists k :: 0 <= k && k < len(c.OCSPServer) && iocsp.OKEvidence(c, iss, c.OCSPServer[k], t))) &&
+//@         (res.Result == result.ResultRevoked ==> (exists k :: 0 <= k && k < len(c.OCSPServer) && iocsp.RevokedEvidence(c, iss, c.OCSPServer[k], t)))) &&
+//@     (!iocsp.Supported$(c) ==> res.Result == result.ResultNonRevokable) }
+//@ spec func ChainReady(ch []*x509.Certificate) bool {
+//@     corex509.ChainInput(ch) && (forall i :: 0 <= i && i < len(ch) ==> ch[i].SerialNumber != nil) }
+
+//@ func CheckStatus(opts)
+//@   props C06 C11 C12 C17
+//@   requires opts.HTTPClient != nil
+//@   requires ChainReady(opts.CertChain)
+//@   calls Client.Do
+//@   maypanic
+//@   owns $1 certResults[i]
+//@   ensures [invalid=>error-no-results] (len(opts.CertChain) == 0 || x509util.ValidateChain$(opts.CertChain, opts.CertChainPurpose) != nil) ==> result == nil && typeof(err) == type(result.InvalidChainError)
+//@   ensures [valid=>one-per-cert] (len(opts.CertChain) > 0 && x509util.ValidateChain$(opts.CertChain, opts.CertChainPurpose) == nil) ==> err == nil && len(result) == len(opts.CertChain) && fresh(result)
+//@   ensures [root-nonrevokable] err == nil ==> result[len(result)-1] != nil && result[len(result)-1].Result == result.ResultNonRevokable
+//@   ensures [per-certificate] err == nil ==> forall k :: 0 <= k && k < len(result) - 1 ==> OCSPSlotOK(opts.CertChain[k], opts.CertChain[k+1], result[k], opts.SigningTime)
+//@   ensures [no-lost-panic] !panicked()
+//@   loop 0
+//@     invariant len(opts.CertChain) > 0 && len(certResults) == len(opts.CertChain) && fresh(certResults)
+//@     invariant certCheckStatusOptions.HTTPClient == opts.HTTPClient && certCheckStatusOptions.SigningTime == opts.SigningTime
+//@     invariant !panicked() ==> (forall k :: 0 <= k && k < it ==> OCSPSlotOK(opts.CertChain[k], opts.CertChain[k+1], certResults[k], opts.SigningTime) && allocated(certResults[k]))
+//@     invariant forall k :: lent(certResults, k) ==> 0 <= k && k < it
+//@     invariant chanlen(panicChan) <= it && chanlen(panicChan) >= 0 && (panicked() <==> chanlen(panicChan) > 0)
